@@ -114,6 +114,9 @@ func scTypeName(n int) string {
 	if s, ok := scOpTypes[n]; ok {
 		return s
 	}
+	if n >= 800 && n < 900 {
+		return scDirName(n - 800) // a type that carries the name of directive n-800 (names of types and directives are apart)
+	}
 	return scGen("T", n)
 }
 
@@ -192,6 +195,9 @@ func scTypeID(s string) int {
 	}
 	if k, n, ok := scParseName(s); ok && k == 'T' {
 		return n
+	}
+	if k, n, ok := scParseName(s); ok && k == 'd' && n < 100 {
+		return 800 + n
 	}
 	return 9999
 }
